@@ -1531,6 +1531,7 @@ def run_sequence(ctx: Ctx, rws: list[dict]) -> None:
             x = names[(ctx.pick >> 3) % len(names)]
             cur.update_renames({x: "mutres"})
             st_.rename(x, "mutres")
+        _bind_one_more(cur, "MUTB")
     except Exception as e:
         mut_ok = False
         ctx.fail_exc(e, f"mutate-result-raised-after:{ctx.last()}")
@@ -1556,6 +1557,8 @@ def run_sequence(ctx: Ctx, rws: list[dict]) -> None:
                 names = [x for x in names if not any(n.nested and x in n.outs for n in s.nodes)]
             if names:
                 obj.update_renames({names[(ctx.pick >> 4) % len(names)]: "mutsrc"})
+            if hasattr(obj, "functions"):
+                _bind_one_more(obj, "MUTBS")
         except Exception as e:
             ctx.fail_exc(e, f"mutate-input-raised:{fr['why']}")
     if ctx.frozen:
@@ -1563,6 +1566,21 @@ def run_sequence(ctx: Ctx, rws: list[dict]) -> None:
             out.fail(f"result-structure-changed-by-mutating-input:{ctx.last()}", f"{snap_cur} -> {snapshot(cur)}")
         elif ctx.sample(cur, st_) != vals_cur:
             out.fail(f"result-values-changed-by-mutating-input:{ctx.last()}", f"{vals_cur} -> {ctx.sample(cur, st_)}")
+
+
+def _bind_one_more(pipeline, value: str) -> None:
+    """update_bound(..., overwrite=False) on the first plain function that already has bound values and a free
+    parameter (objects derived from one another must not share the dict that holds their bound values)."""
+    from pipefunc._pipefunc import NestedPipeFunc
+
+    for f in pipeline.functions:
+        if isinstance(f, NestedPipeFunc) or not f._bound:
+            continue
+        mapped = set(f.mapspec.input_names) if f.mapspec is not None else set()
+        free = [p for p in f.parameters if p not in f._bound and p not in mapped and p not in f._defaults]
+        if free:
+            f.update_bound({free[0]: value})
+            return
 
 
 def _check_frozen(ctx: Ctx, when: str) -> None:
@@ -1781,8 +1799,8 @@ _MP_EXTRA = {"allow_none": False} if "allow_none" in _inspect.signature(mp.map_p
 
 def campaigns(tier):
     progs = st.one_of(
-        dag_programs(max_funcs=5, consistent_ignored_defaults=True),
-        dag_programs(max_funcs=5, min_funcs=2, allow_bound=False, consistent_ignored_defaults=True),
+        dag_programs(max_funcs=5, consistent_ignored_defaults=True, shuffle_names=True),
+        dag_programs(max_funcs=5, min_funcs=2, allow_bound=False, consistent_ignored_defaults=True, shuffle_names=True),
         # chains and diamonds of single-output functions: every nest/simplify precondition is frequent
         dag_programs(max_funcs=5, min_funcs=2, allow_bound=False, allow_multi=False, allow_nullary=False, consistent_ignored_defaults=True),
     )
